@@ -44,10 +44,15 @@ func randomPartition(r *rand.Rand, b []byte, maxParts int, withEmpty bool) [][]b
 // checkPartition: ParseFile under the partition against Parse on the whole (direct
 // oracle of C07), and the lexer alone against the model.
 func checkPartition(res *Result, d *Driver, src []byte, parts [][]byte, whole string) {
-	got := implParseChunks(parts)
+	// every other case delivers the last bytes together with io.EOF, as io.Reader allows
+	withEOF := (len(src)+len(parts))%2 == 0
+	got := implParseChunksEOF(parts, withEOF)
+	if withEOF {
+		res.Count("last-read-with-EOF", 1)
+	}
 	res.Eval(1)
 	if got != whole {
-		res.Fail(Failure{Kind: "oracle", Input: fmt.Sprintf("source=%q reads=%s", trunc(string(src), 600), trunc(chunksArg(parts), 1500)),
+		res.Fail(Failure{Kind: "oracle", Input: fmt.Sprintf("source=%q reads=%s lastReadWithEOF=%v", trunc(string(src), 600), trunc(chunksArg(parts), 1500), withEOF),
 			Impl: trunc(got, 1500), Expected: "the outcome of Parse on the whole input: " + trunc(whole, 1500)})
 		return
 	}
